@@ -8,6 +8,7 @@ Line-protocol driver for C10 and C09 (exe `nv_c10`).
 
   (decls.schema cfg (tsdoc …))                       → (ok (tsfile …) (docs "…"…)) | (err "ScalarTypeNotProvided" "Name")
   (decls.resolvers cfg (tsdoc …))                    → (ok (tsfile …))
+  (decls.resolverDocs cfg (tsdoc …))                 → (ok (docs "…"…))   every JSDoc comment of the resolvers file, in text order
   (vars.ts cfg (vardef…))                            → (ok TY)
   (jsdoc "description")                              → (ok "line"…)
   (ts.mem (tsfile …) (mods ("m" (tsfile …))…) SCOPE J TY)   → (ok BOOL)
@@ -68,6 +69,13 @@ def decMods : Sexp → Option (List (String × Ts.File))
 
 def bools (bs : List Bool) : Sexp := .list (bs.map Sexp.ofBool)
 
+/-- every JSDoc comment of the resolvers file in text order: the only descriptions `ResolverTypePrinter` writes are
+    those of the ARGUMENTS (`arguments_definition_to_ts`, visitor.rs), inside `Args` of `Resolvers[O][f]`, through the
+    same `print_description` as the schema file (`SchemaDecls.docText` = `JsDoc.docLines` joined) -/
+def resolverDocs (doc : TsDoc) : List String :=
+  (SchemaDecls.typeDefsOf doc).flatMap fun td =>
+    if td.kind == .object then td.fields.flatMap fun f => f.args.flatMap fun a => SchemaDecls.optDoc a.desc else []
+
 def handle : Sexp → Sexp
   | .list [.atom "decls.schema", c, d] =>
     match decCfg c, Gql.Dec.tsDoc d with
@@ -79,6 +87,10 @@ def handle : Sexp → Sexp
   | .list [.atom "decls.resolvers", c, d] =>
     match decCfg c, Gql.Dec.tsDoc d with
     | some c, some d => Sexp.ok [Ts.Enc.file (ResolverDecls.resolversFile c d)]
+    | _, _ => Sexp.err "decode"
+  | .list [.atom "decls.resolverDocs", c, d] =>
+    match decCfg c, Gql.Dec.tsDoc d with
+    | some _, some d => Sexp.ok [.list (.atom "docs" :: (resolverDocs d).map .str)]
     | _, _ => Sexp.err "decode"
   | .list [.atom "vars.ts", c, .list vs] =>
     match decCfg c, vs.mapM Gql.Dec.vardef with
